@@ -93,13 +93,18 @@ func runReplayRace(work string, c *GroupCase) {
 		c.Scenario = "not-run"
 		return
 	}
-	waitFor(30*time.Second, func() bool {
+	caughtUp := waitFor(120*time.Second, func() bool {
 		return g.ms[v].node.VerifAppliedIndex() >= g.ms[lead].node.VerifAppliedIndex() && g.ms[v].node.VerifAppliedIndex() > c.VictimLast
 	})
 	time.Sleep(300 * time.Millisecond)
 	c.VictimApplied = g.ms[v].node.VerifAppliedIndex()
 	c.GroupCommit = g.ms[lead].node.VerifAppliedIndex()
 	c.Scenario = "ran"
+	if !caughtUp {
+		c.Oracle = append(c.Oracle, fmt.Sprintf("rejoined member %d did not reach the leader's applied index within 120 s (applied %d, leader %d)",
+			v, c.VictimApplied, c.GroupCommit))
+		return
+	}
 	// DIRECT ORACLE: a store that rejoined and caught up returns every acknowledged point with its latest value
 	lww, _ := st.snapshot()
 	for k, val := range acked {
